@@ -215,6 +215,7 @@ let run_adf id (lines : string list) =
         List.iter (fun q ->
           let qid = "q" ^ string_of_int !k in incr k;
           match q with
+          | ["depths"] -> emit id qid ("depths " ^ String.concat "," (List.map (fun t -> sn (max_depth c a.st t)) a.ac))
           | ["audit"] -> emit id qid ("audit " ^ audit_string a.c a.st)
           | ["ops"; prog] ->
             let regs = ref (Array.of_list a.ac) in
